@@ -4,12 +4,18 @@ import json, subprocess, os
 V='/verif'
 checks = {
  # id: (category, technique, text, note, design_ref)
+ 'C01': ('exploration', 'runtime monitor: differential oracle (optimizer off vs OptimizerLimit 1,2,3,5,10,100) on value/output/globals/error, plus position-free validation of optimizer refusals against the errors raised by the script\'s own constant sub-expressions',
+   'Exhaustive matrix of 13 binding forms x 25 foldable builtin names x use positions, exhaustive operator x literal folding table, and seeded generated programs with builtin shadowing and constant-heavy expressions; every bytecode is run and compared with the unoptimized one. Held on what was run.',
+   'the unoptimized compile+run is the reference (its semantics are C02\'s business); refusal validation trusts a small constant-expression renderer in c01.go', 'DESIGN.md §3 C01'),
  'C02': ('exploration', 'runtime monitor: reference-model oracle (independent tree-walking interpreter written from docs/) over seeded generated programs, fixed probes and an exhaustive arity/variadic/spread matrix; compares value, side-effect event log, globals, error name',
    'Each generated program is executed by the real compiler+VM (optimizer off and on) and by internal/ref; any difference in returned value, order of logged side effects, global updates or error name is a violation. Seeded sampling of a grammar; exhaustive only for the call-arity matrix. Held on the executions produced.',
    'trusts internal/ref (≈1200 lines, each rule a sentence of docs/), the shared parser and the shared value library (operators/builtins judged by C15/C19); constructs whose documented meaning is ambiguous are not generated (DESIGN.md §3 C02)', 'DESIGN.md §3 C02'),
  'C03': ('exploration', 'runtime monitor: reference-model oracle over exhaustively enumerated try/catch/finally x loop x exit-kind trees (sizes 1-3 x 10 histories x 4 wrappers; size 4; sampled 5-9), comparing order AND multiplicity of logged body executions',
    'Every tree of the stated grammar up to the size bound is rendered with a history prefix of completed try statements and a call wrapper, run on the VM (optimizer off/on) and on the reference; finally-exactly-once, pending outcome, caught-not-rethrown and no-influence-of-completed-statements are all implied by log equality. Exhaustive to the bound, sampled above.',
    'trusts internal/ref try/catch/finally (ECMAScript completion semantics) and the parser; one known finding (stale catch identifier) is matched by a narrow history predicate + log mask', 'DESIGN.md §3 C03'),
+ 'C20': ('exploration', 'runtime monitor: round-trip oracles (uGO->Go->uGO type-exact, Go->uGO->Go deep-equal), exhaustive numeric width table checked with math/big, unsupported-type and registry tables, panic monitor on every call',
+   'Seeded nested values in both directions through ToObject, ToObjectAlt and ToInterface plus exhaustive tables of every Go numeric width x boundary values x nesting shapes, 68 unsupported Go types and the time/json registry types. Held on what was run.',
+   'trusts canon.Value rendering, reflect.DeepEqual-style comparator in c20values.go and math/big', 'DESIGN.md §3 C20'),
  'C15': ('exploration', 'runtime monitor: algebraic-law + reference-evaluator oracle over exhaustive boundary-pool pairs, panic monitor (recover) on direct and VM routes',
    'Every ordered pair of a ~75-value boundary pool x every operator is executed on the real Object.BinaryOp/Equal and on a VM; laws, an independent documented-conversion evaluator and a panic monitor judge each result. Exhaustive over the pool, sampled (seeded) over random 64-bit operands in thorough. Held-on-what-was-run, not a proof.',
    'trusts the small evaluator in internal/props/c15.go and Go arithmetic; relational cells where the document is silent are only subject to the laws', 'DESIGN.md §3 C15'),
